@@ -102,6 +102,8 @@ func (r *Report) Finish() int {
 	replayDir := filepath.Join(r.VerifDir, "replay", r.Prop)
 	os.MkdirAll(replayDir, 0755)
 	nObl, nDis, nCover := 0, 0, 0
+	nBoundedObl, nBoundedDis := 0, 0
+	boundedSym := map[string]string{}
 	bySolver := map[string]int{}
 	solverTime := 0.0
 	var violations []string
@@ -115,6 +117,9 @@ func (r *Report) Finish() int {
 	inlinedAll := map[string]bool{}
 	for _, fr := range r.Results {
 		funcs = append(funcs, fr.Name)
+		if fr.BoundedNote != "" {
+			boundedSym[fr.Name] = fr.BoundedNote
+		}
 		for _, n := range fr.Trusted {
 			trusted[n] = true
 		}
@@ -147,6 +152,9 @@ func (r *Report) Finish() int {
 			} else {
 				nObl++
 			}
+			if o.Bounded {
+				nBoundedObl++
+			}
 			bySolver[strings.TrimSuffix(o.Solver, "(cached)")]++
 			solverTime += o.Time
 			if r.V.opts.Verbose || o.Status != "proved" {
@@ -155,6 +163,9 @@ func (r *Report) Finish() int {
 			if o.Status == "proved" {
 				if !o.Cover {
 					nDis++
+					if o.Bounded {
+						nBoundedDis++
+					}
 				}
 				if len(samples) < 6 && !o.Cover && o.Solver != "trivial" {
 					samples = append(samples, map[string]interface{}{"obligation": o.Name, "kind": o.Kind, "clause": o.Src, "backend": o.Solver, "time_s": o.Time})
@@ -230,7 +241,7 @@ func (r *Report) Finish() int {
 	// evidence
 	level := "proof"
 	explanation := ""
-	if nDis != nObl || len(knownHits) > 0 || r.Bounded != nil {
+	if nDis != nObl || len(knownHits) > 0 || r.Bounded != nil || nBoundedObl > 0 {
 		level = "other"
 	}
 	sort.Strings(funcs)
@@ -286,6 +297,13 @@ func (r *Report) Finish() int {
 		cov["bounded_samples"] = r.Bounded.Samples
 		cov["exhaustive"] = r.Bounded.Exhaustive
 	}
+	if nBoundedObl > 0 {
+		cov["bounded_symbolic_obligations"] = nBoundedObl
+		cov["unbounded_obligations"] = nObl - nBoundedObl
+		cov["bounded_symbolic_harnesses"] = boundedSym
+		cov["bounded_symbolic_rule"] = "each harness under /verif/bounded/sym builds an input of a FIXED size whose entries are symbolic reals, calls the real library routine through govc's SSA interpreter, and every control-flow path (pivot order, branch on a symbolic comparison) is enumerated by re-execution; on each path the defining equation is checked as an exact identity of rational functions under the path condition (sympy normal form, then z3/cvc5 nonlinear real arithmetic). Bound = the matrix sizes named in the harness functions; NOT a proof for all sizes"
+		as = append(as, "bounded symbolic cases: exact real arithmetic (no rounding, so the backward-error tolerance of the property is checked as exact equality); divisors on a path are assumed non-zero (the well-conditioned / nonsingular premise)")
+	}
 	for k, v := range r.Extra {
 		if k != "violations" {
 			cov[k] = v
@@ -293,7 +311,10 @@ func (r *Report) Finish() int {
 	}
 	if level == "other" {
 		explanation = fmt.Sprintf("%d proof obligations generated from /repo's current source, %d discharged by SMT (unbounded, all inputs); %d known findings matched (listed in known_findings.txt, not counted as proved)",
-			nObl, nDis, len(knownHits))
+			nObl-nBoundedObl, nDis-nBoundedDis, len(knownHits))
+		if nBoundedObl > 0 {
+			explanation += fmt.Sprintf("; plus %d bounded symbolic obligations (fixed input sizes, all paths, exact reals) which are NOT proofs for all sizes", nBoundedObl)
+		}
 		if r.Bounded != nil {
 			explanation += fmt.Sprintf("; plus %d bounded cases (%s; bound: %s) which are NOT proofs", r.Bounded.Cases, r.Bounded.Rule, r.Bounded.Bound)
 		}
